@@ -2,6 +2,7 @@ package verifsim
 
 import (
 	"context"
+	"errors"
 	"fmt"
 	"sort"
 	"strings"
@@ -75,6 +76,8 @@ type Incarnation struct {
 	// Before, when set, is called on the caller's goroutine before the call is counted or applied, with nothing of
 	// the simulated disk locked (a place where the harness may park the caller).
 	Before func(ops []string)
+	// FailClose: closing a client of this incarnation reports an error (the close itself happens)
+	FailClose bool
 }
 
 func (d *Disk) NewIncarnation(n int) *Incarnation { return &Incarnation{disk: d, N: n} }
@@ -240,7 +243,11 @@ func (c *diskClient) Batch(_ context.Context, ops ...*storage.Operation) error {
 func (c *diskClient) Close(context.Context) error {
 	c.inc.mu.Lock()
 	c.inc.closed++
+	fail := c.inc.FailClose && !c.inc.fenced
 	c.inc.mu.Unlock()
+	if fail {
+		return errors.New("simdisk: injected error from Close")
+	}
 	return nil
 }
 
